@@ -81,6 +81,15 @@ func applyTimeRange(candidates []treasure.Treasure, beaconType hydra.BeaconType,
 	if fromTime == nil && toTime == nil {
 		return candidates
 	}
+	// Only the time indexes have a time axis. The beacon walk applies the window
+	// to those three and ignores it for every other index (swamp.GetTreasuresByBeacon);
+	// here beaconTimeOf answers 0 for them, so a FromTime on a key-ordered query
+	// dropped every candidate while the same query answered by the walk returned them.
+	switch beaconType {
+	case hydra.BeaconTypeCreationTime, hydra.BeaconTypeUpdateTime, hydra.BeaconTypeExpirationTime:
+	default:
+		return candidates
+	}
 	var fromNs, toNs int64
 	if fromTime != nil {
 		fromNs = fromTime.UnixNano()
